@@ -12,7 +12,7 @@ from __future__ import annotations
 
 import ast
 
-from ..core import AnalysisError, call_name, dotted, is_self_attr, kwarg
+from ..core import AnalysisError, call_name, dotted, func_params, is_self_attr, kwarg
 from ..flow import dominating_atoms, enclosing_loops, block_of, enclosing_tests, always_raises
 from .. import coh
 from .. import fields as F
@@ -140,8 +140,27 @@ def run(ctx):
                    'so an operation touching one device qubit and one foreign qubit is accepted') if exi else 'validator has no test that every qubit of the operation is on the device'
         ctx.ob('C07.a', key + ':qubit-test-universal', ok, msg, ci.mod.rel, (exi[0][2] if exi and not ok else fn.lineno))
         if has_pairs:
-            pair_ok = any(any('qubit_pairs' in ast.unparse(a) and ((isinstance(a, ast.Compare) and isinstance(a.ops[0], ast.NotIn) and pol)) for a, pol in atoms)
-                          for r, atoms, loops in rcs)
+            # the pair test must be about the operation's own qubit tuple, not about a coupler element of it
+            params_ = set(func_params(fn)) - {'self'}
+            opvars = set(params_)
+            for l in ast.walk(fn):
+                if isinstance(l, ast.For) and isinstance(l.target, ast.Name) and {n.id for n in ast.walk(l.iter) if isinstance(n, ast.Name)} & params_:
+                    opvars.add(l.target.id)
+            whole = set()
+            for st in ast.walk(fn):
+                if isinstance(st, ast.Assign) and isinstance(st.targets[0], ast.Name) and isinstance(st.value, ast.Attribute) and st.value.attr == 'qubits' \
+                        and isinstance(st.value.value, ast.Name) and st.value.value.id in opvars:
+                    whole.add(st.targets[0].id)
+
+            def about_op_qubits(e):
+                for n in ast.walk(e):
+                    if isinstance(n, ast.Name) and n.id in whole:
+                        return True
+                    if isinstance(n, ast.Attribute) and n.attr == 'qubits' and isinstance(n.value, ast.Name) and n.value.id in opvars:
+                        return True
+                return False
+            pair_ok = any(any('pairs' in ast.unparse(a) and isinstance(a, ast.Compare) and isinstance(a.ops[0], ast.NotIn) and pol and about_op_qubits(a.left)
+                              for a, pol in atoms) for r, atoms, loops in rcs)
             ctx.ob('C07.a', key + ':pair-test', pair_ok, '' if pair_ok else 'validator does not reject two-qubit operations on qubit pairs that are not coupled', ci.mod.rel, fn.lineno)
     # GridDevice entry points funnel into _validate_operations
     gd = repo.cls('cirq_google.devices.grid_device.GridDevice')
